@@ -28,6 +28,8 @@ Specials == {
   \* a key shortcut after a property whose line ends in an annotation (with a note, without one)
   Obj(<<P(Ka, Note(Lit(NumD(N1), <<R("min", NV(N0))>>), "the id")), SC("@K", Lit(NumD(N2), <<>>))>>, <<>>),
   Obj(<<P(Ka, Lit(NumD(N1), <<OptR>>)), SC("@K", Lit(NumD(N2), <<OptR>>)), P(Kb, One)>>, <<>>),
+  \* a named key that looks like a type name (it is quoted: no key shortcut), next to a real key shortcut
+  Obj(<<P(<<64, 75>>, One), SC("@K", Lit(NumD(N2), <<>>)), P(<<64>>, Lit(StrD(Sa), <<OptR>>))>>, <<>>),
   \* a note between a key and its value (on the next line) is the note of that value, not of the property before
   Obj(<<P(Ka, Note(One, "a")), P(Kb, Lit(NumD(N2), <<>>) @@ [knote |-> "note for b"])>>, <<>>),
   Obj(<<P(Ka, One), P(Kb, Obj(<<P(Kc, Note(One, "c"))>>, <<>>) @@ [knote |-> "for the object"]), SC("@K", Lit(NumD(N2), <<>>) @@ [knote |-> "for the key type"])>>, <<>>),
